@@ -759,10 +759,13 @@ def patch_module(mod):
     d["max"] = s_max
     d["any"] = s_any
     d["all"] = s_all
-    # `from math import sqrt`-style names
+    # `from math import sqrt`-style names; module-level float arrays (constants, workspaces) become object arrays
+    # so that they can hold symbolic values too (their sharing between calls is preserved: same object)
     for name, val in list(d.items()):
         if val is _math.sqrt:
             d[name] = s_sqrt
+        elif type(val) is _np.ndarray and val.dtype.kind == "f" and not name.startswith("__"):
+            d[name] = val.astype(object).view(SArr)
 
 
 def patch_package(prefix="distance3d"):
